@@ -263,8 +263,19 @@ Remove1(t) ==
     [] t.k \in {"list", "map"} -> {[t EXCEPT !.et = x] : x \in Remove1(t.et)}
     [] OTHER -> {}
 
+\* targets with one attribute type REPLACED by a type of another kind (at any level).  The property says nothing about
+\* them (C06 quantifies over removed types); the implementation model does (a conversion diagnostic, the others still
+\* written), so these targets keep that part of the specification bound to the code: a deviation shows as drift.
+OtherType(t) == IF t = TPrim("string") THEN TPrim("bool") ELSE TPrim("string")
+RECURSIVE Retype1(_)
+Retype1(t) ==
+  CASE t.k = "obj" -> {TObj([t.at EXCEPT ![n] = OtherType(t.at[n])]) : n \in DOMAIN t.at}
+                      \cup UNION {{TObj([t.at EXCEPT ![n] = x]) : x \in Retype1(t.at[n])} : n \in DOMAIN t.at}
+    [] t.k \in {"list", "map"} -> {[t EXCEPT !.et = OtherType(t.et)]} \cup {[t EXCEPT !.et = x] : x \in Retype1(t.et)}
+    [] OTHER -> {}
+
 Reduced(M, deep) ==
   LET one == Remove1(M.tt)
       two == IF deep THEN UNION {Remove1(t) : t \in one} ELSE {}
-  IN {EmptyObject(t.at) : t \in one \cup two}
+  IN {EmptyObject(t.at) : t \in one \cup two \cup Retype1(M.tt)}
 =============================================================================
